@@ -611,6 +611,30 @@ Proof.
     split; [exact Hw3|]. right. exists (Nat.max n 1), w', ex'. split; [lia|]. split; [exact Hc|reflexivity].
 Qed.
 
+(** the whole text: every word goes through [word_result], the generator threaded from word to word *)
+Lemma spell_words_spec wc pf pw pc : forall ws st l st', wf st -> wtabs_ok wc = true ->
+  spell_words wc pf pw pc ws st = Some (l, st') ->
+  wf st' /\ exists os, Forall2 (word_result wc) ws os /\ l = keep_some os.
+Proof.
+  induction ws as [|w r IH]; intros st l st' Hw Hok H; cbn [spell_words] in H.
+  - injection H as <- <-. split; [exact Hw|]. exists []. split; [constructor|reflexivity].
+  - destruct (spell_word wc pf pw pc w st) as [[o st1]|] eqn:E1; [|discriminate].
+    destruct (spell_word_chain _ _ _ _ _ _ _ _ Hw Hok E1) as [Hw1 Ho].
+    destruct (spell_words wc pf pw pc r st1) as [[l2 st2]|] eqn:E2; [|discriminate]. injection H as <- <-.
+    destruct (IH _ _ _ Hw1 Hok E2) as (Hw2 & os & Hf & ->). split; [exact Hw2|].
+    exists (o :: os). split; [constructor; [exact Ho|exact Hf]|]. destruct o; reflexivity.
+Qed.
+
+Lemma spell_seeded_spec wc pf pw pc seed ws l : wtabs_ok wc = true ->
+  spell_seeded wc pf pw pc seed ws = Some l ->
+  exists os, Forall2 (word_result wc) ws os /\ l = keep_some os.
+Proof.
+  intros Hok H. unfold spell_seeded in H.
+  destruct (spell_words wc pf pw pc ws (seed_from_u64 seed)) as [[l' st']|] eqn:E; [|discriminate].
+  injection H as <-. destruct (spell_words_spec _ _ _ _ _ _ _ _ (wf_seed seed) Hok E) as (_ & os & H1 & H2).
+  exists os. split; assumption.
+Qed.
+
 (** * The statements as pinned *)
 Lemma seeded_in_outcomes_l wc cd cs w ex st k st' : wf st -> wtabs_ok wc = true ->
   edit_word_seeded wc cd cs w ex st = SOk k st' ->
